@@ -18,7 +18,7 @@ RULE = ("fault enumeration of response frames that pass validation: every valid 
         "state report in the same exchange (good+bad, bad+good, bad+good+bad). Oracle: nothing escapes the operation; in a mixed "
         "exchange the good frame is applied and the device is online. non-trivial = every case")
 ASSUMPTIONS = ["all frames of a mixed exchange arrive before the library resumes (same virtual instant)"]
-DRIVERS = ["refresh", "apply", "get_capabilities", "toggle_display", "start_self_clean", "refresh-props", "refresh-then-ops"]
+DRIVERS = ["refresh", "apply", "get_capabilities", "toggle_display", "start_self_clean", "refresh-props", "refresh-then-ops", "get_capabilities-2nd"]
 KINDS = ["state", "caps", "props", "energy", "humidity"]
 
 
@@ -115,6 +115,7 @@ def shards(tier):
     for g in ("trunc", "fields", "ids-a", "ids-b"):
         for mix in ("good+bad", "bad+good", "bad+good+bad"):
             out.append((g, "get_capabilities", mix))
+    # DRIVERS already yields (group, "get_capabilities-2nd", "alone"); a silent second exchange is part of group trunc (empty frame)
     return out
 
 
@@ -158,10 +159,15 @@ def execute(frame: bytes, driver: str, mix: str):
     dev_model = rich_device()
     good_state = dict(dev_model.state)
 
-    armed = {"on": driver != "refresh-props"}
+    armed = {"on": driver not in ("refresh-props", "get_capabilities-2nd")}
     tally = {}
+    if driver == "get_capabilities-2nd":
+        # two capability pages: the first answer is honest (and announces more), the second request gets the bad frame
+        dev_model.cap_pages = [dev_model.cap_pages[0][:4], dev_model.cap_pages[0][4:]]
 
     def script(req):
+        if driver == "get_capabilities-2nd" and req.frame is not None and len(req.frame) > 13 and req.frame[10] == 0xB5:
+            armed["on"] = req.frame[12] == 0x01          # the 'additional capabilities' request
         if not armed["on"]:
             for p in req.responses:
                 req.send(p)
@@ -204,8 +210,9 @@ def execute(frame: bytes, driver: str, mix: str):
             tally["rejected"] = [r[1] for r in dev_model.rejected[r0:]]
             tally["online"] = ac.online
             tally["diff"] = diff_view(client_view_of(dev_model.state), ac)
-        elif driver == "get_capabilities":
+        elif driver in ("get_capabilities", "get_capabilities-2nd"):
             await ac.get_capabilities()
+            tally["requests"] = len(dev_model.frames)
         elif driver == "toggle_display":
             await ac.toggle_display()
         else:
@@ -238,6 +245,11 @@ def run_shard(shard, tier) -> Stats:
         prob = None
         if out[0] != "ok":
             prob = f"{driver} raised {type(out[1]).__name__}"
+        elif driver == "get_capabilities-2nd" and mix == "alone":
+            # the first page must still be applied when the second request yields nothing usable
+            fresh_modes = caps_snapshot(Rig(2).client())
+            if caps_snapshot(ac) == fresh_modes and not (len(frame) > 11 and frame[10] == 0xB5 and frame[9] == 0x03):
+                prob = "first capabilities page not applied when the additional request is answered with a bad frame"
         elif driver == "refresh-then-ops":
             t = ac._c14_tally
             if t.get("rejected"):
